@@ -177,6 +177,13 @@ def _tuple_prov_term(it, t, conds, depth: int = 0) -> bool:
             _tuple_prov_term(it, t[3], tuple(conds) + ((t[1], False),), depth + 1)
     if k == "attr" and t[2] == "_precomputed_data":
         return True                  # the field is only ever assigned a tuple (its own instance of the rule)
+    if k == "call" and t[1][0] == "attr" and t[1][2] in ("pop", "get") and t[1][1][0] == "attr" and t[1][1][2] == "__dict__" \
+            and t[2] and t[2][0] == ("const", "str", "_precomputed_data"):
+        # the same field taken out of the instance dict (`self.__dict__.pop('_precomputed_data', None)`): a tuple, or the default -
+        # which must be None and excluded by an `is not None` guard on the path
+        if len(t[2]) == 1:
+            return True
+        return len(t[2]) == 2 and t[2][1] == SNONE and (("cmp", "Is", t, SNONE), False) in flatten_conds(conds)
     if k == "sub" and t[2][0] == "slice":
         return _tuple_prov_term(it, t[1], conds, depth + 1)
     if t == SNONE:
@@ -190,13 +197,36 @@ def _rule_a(ctx) -> None:
     from ..symx import NONE as SNONE
     from ..symx import flatten_conds, show
     prog = ctx.prog
-    for f in list(prog.functions.values()):
-        if isinstance(f.node, ast.Lambda) or f.parent:
-            continue
-        if not any(isinstance(n, ast.Attribute) and n.attr in ("_underlying", "_precomputed_data") and isinstance(n.ctx, ast.Store)
-                   for n in ast.walk(f.node)) and "__setattr__" not in ast.dump(f.node)[:0]:
-            if not any(isinstance(n, ast.Call) and short(n.func) in ("object.__setattr__", "setattr") for n in ast.walk(f.node)):
+    from ..core import dead_private_helper
+    from ..symx import default_inline
+    inlined = default_inline(prog)
+    # a later helper that stores what it is HANDED (`def _swap_storage(vec, old_id, new_tuple): ... vec._underlying = new_tuple`) is
+    # judged where it is evaluated in line - in every function that calls it, with the argument of that call
+    forwarders: Set[str] = set()
+    work = [f for f in prog.functions.values() if not (isinstance(f.node, ast.Lambda) or f.parent)]
+    done: Set[str] = set()
+
+    def stores_directly(f) -> bool:
+        if any(isinstance(n, ast.Attribute) and n.attr in ("_underlying", "_precomputed_data") and isinstance(n.ctx, ast.Store)
+               for n in ast.walk(f.node)):
+            return True
+        return any(isinstance(n, ast.Call) and short(n.func) in ("object.__setattr__", "setattr") for n in ast.walk(f.node))
+
+    def callers_of(name: str):
+        out = []
+        for g in prog.functions.values():
+            if isinstance(g.node, ast.Lambda) or g.parent:
                 continue
+            if any(isinstance(n, ast.Call) and ((isinstance(n.func, ast.Name) and n.func.id == name)
+                                                or (isinstance(n.func, ast.Attribute) and n.func.attr == name)) for n in ast.walk(g.node)):
+                out.append(g)
+        return out
+    queue = [f for f in work if stores_directly(f)]
+    while queue:
+        f = queue.pop(0)
+        if f.qualname in done:
+            continue
+        done.add(f.qualname)
         it = interp_of(prog, f)
         for e in it.events:
             fld = None
@@ -227,6 +257,15 @@ def _rule_a(ctx) -> None:
                 if any((c, not p) in fc for c, p in flatten_conds(cnds)):
                     continue            # alternative excluded by the path condition
                 if not _tuple_prov_term(it, t, e.conds):
+                    if t[0] == "param" and owner is f and t[1] in f.params and inlined(f) and fld == "_underlying":
+                        # (handed in: decided at the calls - or nowhere, for a helper nothing mentions)
+                        if dead_private_helper(prog, f):
+                            continue
+                        cs = callers_of(f.name)
+                        if cs and all(inlined(f) for _ in cs):
+                            forwarders.add(f.qualname)
+                            queue.extend(c for c in cs if c.qualname not in done)
+                            continue
                     ok = False
             ctx.ob("a.tuple-storage", owner, f"store:{fld}:{_ordinal(ctx, owner, fld)}", ok,
                    f"{fld} <- {show(val, it)[:60]}", e.node,
